@@ -448,7 +448,7 @@ def _ctor_field(idx: ProgramIndex, fi: FuncInfo, call: ast.Call, kw: str) -> Opt
     # ... or stores it after a helper of the class worked on it: self.<attr> = self._helper(<kw>)
     for n in ast.walk(init.node):
         if isinstance(n, ast.Assign) and len(n.targets) == 1 and isinstance(n.targets[0], ast.Attribute) and isinstance(n.targets[0].value, ast.Name) and n.targets[0].value.id == sn \
-                and isinstance(n.value, ast.Call) and isinstance(n.value.func, ast.Attribute) and chain(n.value.func.value) in (sn, r.name) and len(n.value.args) == 1 \
+                and isinstance(n.value, ast.Call) and isinstance(n.value.func, ast.Attribute) and chain(n.value.func.value) in (sn, r.name) and len(n.value.args) >= 1 \
                 and isinstance(n.value.args[0], ast.Name) and n.value.args[0].id == kw:
             return n.targets[0].attr
     raise AnalysisError("%s: constructor %s does not store its `%s` argument under an attribute (unknown form)" % (fi.qualname, r.qualname, kw))
